@@ -107,7 +107,8 @@ func matchField(req corev1.NodeSelectorRequirement, nodeName string) bool {
 // taint tolerated by template tolerations plus the six standard DaemonSet tolerations.
 func Eligible(node *corev1.Node, tpl *corev1.PodSpec) bool {
 	for k, v := range tpl.NodeSelector {
-		if node.Labels[k] != v {
+		// the label has to be present: an absent label does not satisfy an entry with an empty value
+		if lv, has := node.Labels[k]; !has || lv != v {
 			return false
 		}
 	}
